@@ -224,10 +224,14 @@ impl<'a, R: 'a + Read> CompressionLayerReader<'a, R> {
                 // Use index for faster decompression
                 let compressed_block_size =
                     sizes_info.compressed_block_size_at(uncompressed_pos)? as usize;
+                // `compressed_block_size` is untrusted: do not let it size the
+                // decompressor's internal buffer beyond a block
+                let buffer_size =
+                    std::cmp::min(compressed_block_size, UNCOMPRESSED_DATA_SIZE as usize);
                 Ok(brotli::Decompressor::new(
                     // Make the Decompressor work only on the compressed block's bytes, no more
                     inner.take(compressed_block_size as u64),
-                    compressed_block_size,
+                    buffer_size,
                 ))
             }
             None => Err(Error::MissingMetadata),
